@@ -31,6 +31,22 @@ void common(P &p, const KV &kv) {
         p.L_min = kv.flt("Lmin");
     if (kv.has("Lmax"))
         p.L_max = kv.flt("Lmax");
+    // non-default switches of the line-search solvers (absent keys keep the library defaults)
+    if constexpr (requires { p.eager_gradient_eval; })
+        if (kv.has("eager"))
+            p.eager_gradient_eval = kv.nat("eager") != 0;
+    if constexpr (requires { p.recompute_last_prox_step_after_stepsize_change; })
+        if (kv.has("recomp"))
+            p.recompute_last_prox_step_after_stepsize_change = kv.nat("recomp") != 0;
+    if constexpr (requires { p.force_linesearch; })
+        if (kv.has("force"))
+            p.force_linesearch = kv.nat("force") != 0;
+    if constexpr (requires { p.update_direction_in_candidate; })
+        if (kv.has("updcand"))
+            p.update_direction_in_candidate = kv.nat("updcand") != 0;
+    if constexpr (requires { p.update_direction_from_prox_step; })
+        if (kv.has("updprox"))
+            p.update_direction_from_prox_step = kv.nat("updprox") != 0;
 }
 
 template <class Inner>
